@@ -2,6 +2,8 @@
 C03 — Check, mate and draw status are right; incremental state never goes stale.
 -/
 import ChessVerif.Props.C06
+import ChessVerif.Props.C01
+import ChessVerif.Props.C05
 import ChessVerif.Spec.Abs
 
 namespace Chess.Props.C03
@@ -10,23 +12,86 @@ open Chess Chess.Spec
 def statusOf : Board.GameState → Position.Status
   | .checkMate => .checkMate | .staleMate => .staleMate | .check => .check | .running => .running
 
-/-- the four-way classification is the specification's, given that the three ingredients are right:
-"no legal move" (C01), "in check" and the half-move clock -/
-theorem state_classify (b : Board)
-    (hmoves : (MoveGen.legals b).isEmpty = (abs b).legalMoves.isEmpty)
-    (hcheck : b.inCheck = (abs b).inCheck b.turn) :
-    statusOf b.state = (abs b).classify := by
+/-- **in check**: the board reports check exactly when the side to move's king is attacked -/
+theorem inCheck_iff (b : Board) (h : b.WF = true) : b.inCheck = (abs b).inCheck b.turn :=
+  Legal.inCheck_iff b h
+
+/-- the specification's enumeration lists exactly the legal moves -/
+theorem mem_legalMoves_iff (p : Position) (m : Move) : m ∈ p.legalMoves ↔ p.legal m = true := by
+  unfold Position.legalMoves
+  constructor
+  · intro hm
+    rcases List.mem_flatMap.mp hm with ⟨s, _, hs⟩
+    split at hs
+    · split at hs
+      · rcases List.mem_flatMap.mp hs with ⟨d, _, hd⟩
+        rcases List.mem_filterMap.mp hd with ⟨pr, _, hpr⟩
+        simp only [] at hpr
+        by_cases hl : p.legal ⟨s, d, pr⟩ = true
+        · rw [if_pos hl] at hpr
+          have := Option.some.inj hpr
+          subst this
+          exact hl
+        · rw [if_neg hl] at hpr
+          cases hpr
+      · cases hs
+    · cases hs
+  · intro hl
+    obtain ⟨pc, hsrc⟩ := Legal.legal_source p m hl
+    apply List.mem_flatMap.mpr ⟨m.source, List.mem_finRange _, ?_⟩
+    rw [hsrc]
+    simp only [beq_self_eq_true, if_true]
+    apply List.mem_flatMap.mpr ⟨m.dest, List.mem_finRange _, ?_⟩
+    apply List.mem_filterMap.mpr ⟨m.piece, ?_, ?_⟩
+    · unfold Position.promoChoices
+      rcases hm : m.piece with _ | pr
+      · simp
+      · cases pr <;> simp
+    · have : (⟨m.source, m.dest, m.piece⟩ : Move) = m := by cases m; rfl
+      simp [this, hl]
+
+/-- "no legal move" is decided correctly -/
+theorem isEmpty_iff (b : Board) (h : b.WF = true) :
+    (MoveGen.legals b).isEmpty = (abs b).legalMoves.isEmpty := by
+  have h1 : (MoveGen.legals b).isEmpty = b.legalsList.isEmpty := by
+    have hg : (MoveGen.legals b).promoIdx = 0 := rfl
+    rw [C10.isEmpty_iff _ hg]
+    unfold Board.legalsList MoveGen.toList
+    rw [C10.drain_eq _ hg 5000 ?_]
+    have := Legal.wf_entries_le b h
+    have hlt := Entries.mvsOf_length_lt (MoveGen.legals b) (by simpa [MoveGen.legals] using this)
+    simpa [C10.movesOf_eq] using hlt
+  rw [h1]
+  have : (b.legalsList = [] ↔ (abs b).legalMoves = []) := by
+    constructor
+    · intro he
+      apply List.eq_nil_iff_forall_not_mem.mpr
+      intro m hm
+      have := (C01.legals_iff b h m).mpr ((mem_legalMoves_iff _ m).mp hm)
+      rw [he] at this; cases this
+    · intro he
+      apply List.eq_nil_iff_forall_not_mem.mpr
+      intro m hm
+      have := (mem_legalMoves_iff _ m).mpr ((C01.legals_iff b h m).mp hm)
+      rw [he] at this; cases this
+  cases h2 : b.legalsList with
+  | nil => rw [this.mp h2]
+  | cons x xs =>
+    cases h3 : (abs b).legalMoves with
+    | nil => rw [this.mpr h3] at h2; cases h2
+    | cons y ys => rfl
+
+/-- **status**: checkmate (no legal move, in check), draw (no legal move and not in check, or 100
+half-moves), check, running — exactly the specification's classification -/
+theorem state_eq (b : Board) (h : b.WF = true) : statusOf b.state = (abs b).classify := by
   unfold Board.state Position.classify
-  rw [hmoves, hcheck]
+  rw [isEmpty_iff b h, inCheck_iff b h]
   have hh : (abs b).half = b.half := rfl
   have ht : (abs b).turn = b.turn := rfl
   rw [hh, ht]
   generalize (abs b).legalMoves.isEmpty = e
   generalize (abs b).inCheck b.turn = c
   by_cases h : b.half ≥ 100 <;> cases e <;> cases c <;> simp [h, statusOf]
-
-/-- `in_check` is "the checkers set is not empty" -/
-theorem inCheck_def (b : Board) : b.inCheck = BB.any b.checkers := rfl
 
 /-- the derived pin/check state of every board the parser returns is the from-scratch state -/
 theorem parse_pinInfo (s : List Byte) (b : Board) (h : Fen.parseFen s = .ok b) :
@@ -35,9 +100,16 @@ theorem parse_pinInfo (s : List Byte) (b : Board) (h : Fen.parseFen s = .ok b) :
   simp only [Board.WF, Board.pinInfoOk, Bool.and_eq_true, beq_iff_eq] at hw
   exact ⟨hw.1.2.1, hw.1.2.2⟩
 
-/-- the from-scratch state depends only on placement and side to move: two boards with the same
-placement and side to move, both carrying from-scratch state, carry the same state — so a position
-reached by moves is indistinguishable from the rebuilt one as soon as `pinInfoOk` is preserved -/
+/-- what the pin/check sets mean: checkers are exactly the enemy pieces attacking the king, pinned
+squares exactly the single occupied squares between the king and an aligned enemy slider -/
+theorem checkers_meaning (b : Board) (h : b.WF = true) (x : Sq) :
+    BB.mem b.checkers x = true ↔
+      (Legal.contactOn (abs b).pieceAt b.turn.flip x (b.kingSq b.turn) = true ∨
+       (Legal.sliderOn (abs b).pieceAt b.turn.flip x (b.kingSq b.turn) = true ∧
+        Legal.clear (abs b).occupied x (b.kingSq b.turn) = true)) := Legal.mem_checkers_iff b h x
+
+/-- the from-scratch state depends only on placement and side to move: a moved board and a rebuilt
+one agree as soon as both carry from-scratch state -/
 theorem pinInfo_determined (a b : Board) (hr : a.raw = b.raw) (ht : a.turn = b.turn)
     (ha : a.pinInfoOk = true) (hb : b.pinInfoOk = true) : a.pinned = b.pinned ∧ a.checkers = b.checkers := by
   simp only [Board.pinInfoOk, Bool.and_eq_true, beq_iff_eq] at ha hb
@@ -46,5 +118,27 @@ theorem pinInfo_determined (a b : Board) (hr : a.raw = b.raw) (ht : a.turn = b.t
     simp only [hr, ht]
     exact ⟨trivial, trivial⟩
   exact ⟨by rw [ha.1, hb.1, key.1], by rw [ha.2, hb.2, key.2]⟩
+
+/-- **`incr_eq`**: the pin/check state `move_unchecked_into` maintains incrementally (direct check only
+from the moved knight / pawn / promoted knight, every slider of the mover rescanned) is the
+from-scratch state of the successor — it never goes stale -/
+theorem move_pinInfo (b : Board) (h : b.WF = true) (m : Move) (hl : (abs b).legal m = true) :
+    (b.moveUnchecked m).pinInfoOk = true := Legal.move_pinInfo b h m hl
+
+/-- in check ⇔ king attacked, for every reachable position -/
+theorem inCheck_iff_reachable (b₀ b : Board) (h₀ : b₀.WF = true) (hr : Board.Reachable b₀ b) :
+    b.inCheck = (abs b).inCheck b.turn := Legal.inCheck_iff_reachable b₀ b h₀ hr
+
+theorem state_eq_reachable (b₀ b : Board) (h₀ : b₀.WF = true) (hr : Board.Reachable b₀ b) :
+    statusOf b.state = (abs b).classify := state_eq b (Legal.reachable_WF b₀ b h₀ hr)
+
+/-- **a position reached by playing moves is the same position constructed from scratch**: writing
+any reachable board (clocks up to 9999) as text and parsing it back returns the *identical* board —
+placement, rights, marker, clocks, hash, pinned and checkers — hence the same legal moves, check
+status, hash, `Display` and `Debug` rendering -/
+theorem rebuilt_eq_reachable (b₀ b : Board) (h₀ : b₀.WF = true) (hr : Board.Reachable b₀ b)
+    (hh : b.half ≤ 9999) (hf : b.full ≤ 9999) :
+    Fen.parseFen (Fen.display b) = .ok b :=
+  C05.parse_display b (Legal.reachable_WF b₀ b h₀ hr) hh hf
 
 end Chess.Props.C03
